@@ -136,4 +136,3 @@ func firstLines(s string, n int) string {
 	return strings.Join(ls, " | ")
 }
 
-func cmdCheck(args []string) int { return 2 }
